@@ -286,3 +286,93 @@ def _measure_c11(L):
 
 contract('C11.runtime.requery', [PS + ':FFTPSF.__init__', MTF + ':FFTMTF.__init__', MTF + ':GeometricMTF.__init__'], ['C11', 'C13'],
          custom=rt.requery_custom(_measure_c11, 'C11.runtime.psf_and_mtf_of_an_edited_lens_equal_those_of_a_lens_built_with_the_edits'))(lambda c: None)
+
+
+def _diffraction_limit(ct, tier, seed):
+    """bounded: the diffraction-limited curve (2/pi)(phi - cos phi sin phi), phi = arccos(f / f_cutoff)"""
+    import warnings
+    from optiland import mtf as mtfm
+    from optiland.optic import Optic
+    from optiland.materials import IdealMaterial
+    warnings.simplefilter('ignore')
+    np.seterr(all='ignore')
+    t0 = time.time()
+    rng = random.Random(seed * 23 + 2)
+    clauses, fails, cases = {}, [], 0
+
+    def note(cid, ok, detail, inputs):
+        c_ = clauses.setdefault(cid, {'paths': 0, 'proved': 0, 'backends': {}, 'failed': [], 'seconds': 0.0, 'bounded': True})
+        c_['paths'] += 1
+        if ok:
+            c_['proved'] += 1
+            c_['backends']['runtime'] = c_['backends'].get('runtime', 0) + 1
+        else:
+            fails.append({'clause': cid, 'draws': inputs, 'note': detail})
+
+    def dl(f, fc):
+        phi = np.arccos(np.clip(f / fc, -1, 1))
+        return 2 / np.pi * (phi - np.cos(phi) * np.sin(phi))
+    # (a) a slow positive singlet (F/60 .. F/200): aberrations far below a wave, the pupil is a uniform disc
+    for i in range(2 if tier == 'quick' else 8):
+        L = Optic()
+        L.add_surface(index=0, thickness=np.inf)
+        L.add_surface(index=1, radius=rng.uniform(40, 90), thickness=4, material=IdealMaterial(rng.uniform(1.45, 1.8)), is_stop=True)
+        L.add_surface(index=2, radius=-rng.uniform(40, 90), thickness=50)
+        L.add_surface(index=3)
+        L.set_aperture('EPD', rng.uniform(0.4, 0.8))
+        L.set_field_type('angle')
+        L.add_field(y=0)
+        L.add_wavelength(0.55, is_primary=True)
+        L.image_solve()
+        for (nr, g) in (((32, 128), (64, 256)) if tier == 'quick' else ((32, 128), (64, 256), (128, 512), (48, 256))):
+            inputs = {'lens': 'slow singlet #%d' % i, 'num_rays': nr, 'grid_size': g}
+            m = mtfm.FFTMTF(L, fields=[(0.0, 0.0)], wavelength=0.55, num_rays=nr, grid_size=g)
+            f = np.arange(g // 2) * m._get_mtf_units()
+            ref = dl(f, m.max_freq)
+            cases += 1
+            for which, arr in (('tangential', m.mtf[0][0]), ('sagittal', m.mtf[0][1])):
+                arr = np.asarray(arr, dtype=float)
+                n_ = min(len(arr), len(ref))
+                dev = float(np.max(np.abs(arr[:n_] - ref[:n_])))
+                note('C11.runtime.unaberrated_fft_mtf_is_circular_pupil_formula_within_sampling_error', dev <= 1.0 / nr,
+                     '%s: max deviation %.4f > 1/num_rays' % (which, dev), inputs)
+    # (b) aberrated lenses: never above the diffraction-limited curve (beyond the sampling error)
+    for i in range(2 if tier == 'quick' else 10):
+        st = rng.getstate()
+        try:
+            L = rt.random_lens(_rng(st), finite=False)
+            wl = L.primary_wavelength
+            nr, g = 32, 128
+            m = mtfm.FFTMTF(L, fields=[(0.0, 0.0), (0.0, 0.7)], wavelength=wl, num_rays=nr, grid_size=g)
+        except Exception:
+            continue
+        f = np.arange(g // 2) * m._get_mtf_units()
+        ref = dl(f, m.max_freq)
+        for k_ in range(2):
+            for arr in m.mtf[k_]:
+                arr = np.asarray(arr, dtype=float)
+                if not np.all(np.isfinite(arr)):
+                    continue
+                n_ = min(len(arr), len(ref))
+                cases += 1
+                note('C11.runtime.fft_mtf_never_exceeds_the_diffraction_limited_curve', bool(np.all(arr[:n_] <= ref[:n_] + 1.0 / nr)),
+                     'random#%d: excess %.4f' % (i, float(np.max(arr[:n_] - ref[:n_]))), {'lens': 'random#%d' % i})
+        try:
+            gm = mtfm.GeometricMTF(L, fields=[(0.0, 0.0), (0.0, 0.7)], wavelength=wl, num_rays=20, num_points=32)
+        except Exception:
+            continue
+        note('C11.runtime.geometric_mtf_reference_is_circular_pupil_formula', bool(np.allclose(gm.diff_limited_mtf, dl(gm.freq, gm.max_freq), rtol=0, atol=1e-12)),
+             '', {'lens': 'random#%d' % i})
+        for k_ in range(2):
+            for arr in gm.mtf[k_]:
+                arr = np.asarray(arr, dtype=float)
+                if np.all(np.isfinite(arr)):
+                    note('C11.runtime.geometric_mtf_never_exceeds_its_reference', bool(np.all(arr <= gm.diff_limited_mtf + 1e-12)), '', {'lens': 'random#%d' % i})
+    return {'contract': ct.name, 'functions': ct.functions, 'props': ct.props,
+            'symbolic': {'clauses': clauses, 'paths': 0, 'errors': [], 'solver_s': 0.0, 'samples': [], 'wd_assumed': [], 'assumed': []},
+            'numeric': {'accepted': cases, 'rejected': 0, 'failures': fails[:10], 'concolic_agree': 0, 'encoder_mismatches': [],
+                        'samples': [{'sampling_error_bound': '1/num_rays'}]}, 'wall_s': time.time() - t0}
+
+
+contract('C11.runtime.diffraction_limit', [MTF + ':FFTMTF._generate_mtf_data', MTF + ':FFTMTF._get_mtf_units', MTF + ':GeometricMTF._generate_mtf_data',
+                                           MTF + ':GeometricMTF._compute_field_data'], ['C11'], custom=_diffraction_limit)(lambda c: None)
